@@ -273,13 +273,18 @@ class Client(BaseComponent):
             if nbytes < len(data):
                 self._buffer.appendleft(data[nbytes:])
         except OSError as e:
-            if e.args[0] in (EINTR, EWOULDBLOCK, EAGAIN, ENOBUFS):
-                # transient: nothing was sent, try again later
+            if e.args[0] in (EINTR, EWOULDBLOCK, EAGAIN, ENOBUFS) or (
+                isinstance(e, SSLError) and e.args[0] in (SSL_ERROR_WANT_READ, SSL_ERROR_WANT_WRITE)
+            ):
+                # transient (the TLS layer says "want write" where a plain
+                # socket says EAGAIN): nothing was sent, try again later
                 self._buffer.appendleft(data)
             elif e.args[0] in (EPIPE, ENOTCONN):
                 self._close()
             else:
+                # the payload is lost: nothing may follow it on this connection
                 self.fire(error(e))
+                self._close()
 
     @handler('write')
     def write(self, data):
